@@ -151,6 +151,7 @@ type Backend struct {
 	mu                         sync.Mutex
 	Log                        *reflog.Log
 	Name                       string
+	Creator                    map[string]*Submission // identity hash -> the submission whose QueueLeaf stored the leaf
 }
 
 func (b *Backend) nowNanos() int64 { return time.Now().UnixNano() }
@@ -224,6 +225,16 @@ func (b *Backend) QueueLeaf(ctx context.Context, in *trillian.QueueLeafRequest, 
 		before := b.Log.Dups
 		rsp, err := b.Log.QueueLeaf(in, b.nowNanos())
 		c.Dup = b.Log.Dups > before
+		if err == nil && !c.Dup {
+			// remember which submission created the stored leaf: later duplicates (possibly naming
+			// another version of the root, or omitting it) are answered from this one
+			if op := opFrom(ctx); op != nil && op.Sub != nil && rsp.QueuedLeaf != nil && rsp.QueuedLeaf.Leaf != nil {
+				if b.Creator == nil {
+					b.Creator = map[string]*Submission{}
+				}
+				b.Creator[string(rsp.QueuedLeaf.Leaf.LeafIdentityHash)] = op.Sub
+			}
+		}
 		return rsp, err
 	})
 	if err != nil || r == nil {
